@@ -225,6 +225,11 @@ class Canon(ast.NodeTransformer):
             return node
         if fn == "pow" and len(node.args) == 2 and not node.keywords:
             return ast.copy_location(ast.BinOp(left=node.args[0], op=ast.Pow(), right=node.args[1]), node)
+        # len(d.keys()) is len(d)
+        if fn == "len" and len(node.args) == 1 and isinstance(node.args[0], ast.Call) and isinstance(node.args[0].func, ast.Attribute) and node.args[0].func.attr == "keys" \
+                and not node.args[0].args:
+            node.args = [node.args[0].func.value]
+            return node
         # L.pop(-1) is L.pop()
         if isinstance(node.func, ast.Attribute) and node.func.attr == "pop" and isinstance(node.func.value, ast.Name) and len(node.args) == 1 and not node.keywords \
                 and isinstance(node.args[0], ast.UnaryOp) and isinstance(node.args[0].op, ast.USub) and isinstance(node.args[0].operand, ast.Constant) and node.args[0].operand.value == 1:
